@@ -1,15 +1,15 @@
 use derivative::Derivative;
 use regex::Regex;
 use std::borrow::Cow;
+use std::collections::HashMap;
 use std::fmt::Debug;
 use std::hash::Hash;
-use std::iter;
 use string_interner::backend::Backend;
 use string_interner::Symbol;
 
 #[derive(Default)]
 pub(crate) struct SpecialPrefixBackend<B: Backend> {
-    items: Vec<Option<Cow<'static, str>>>,
+    items: HashMap<usize, Cow<'static, str>>,
     inner: B,
 }
 
@@ -17,14 +17,11 @@ lazy_static! {
     static ref RE: Regex = Regex::new("^item(0|[1-9][0-9]*)$").unwrap();
 }
 
-// larger indices are interned as regular identifiers
-const MAX_ITEM_INDEX: usize = u16::MAX as usize;
-
-/// the index of a canonically spelled tuple member name (`item0`, `item1`, ...)
+/// the index of a canonically spelled tuple member name (`item0`, `item1`, ...); a number that does not
+/// fit a usize makes a regular identifier
 fn item_index(string: &str) -> Option<usize> {
     RE.captures(string)
         .and_then(|m| m[1].parse::<usize>().ok())
-        .filter(|idx| *idx <= MAX_ITEM_INDEX)
 }
 
 #[derive(Derivative)]
@@ -58,19 +55,15 @@ impl<B: Backend> Backend for SpecialPrefixBackend<B> {
     fn with_capacity(cap: usize) -> Self {
         Self {
             inner: B::with_capacity(cap),
-            items: Vec::new(),
+            items: HashMap::new(),
         }
     }
 
     fn intern(&mut self, string: &str) -> Self::Symbol {
         if let Some(idx) = item_index(string) {
-            if self.items.len() <= idx {
-                self.items
-                    .extend(iter::repeat(None).take(idx - self.items.len()));
-                self.items.push(Some(Cow::Owned(format!("item{idx}"))));
-            } else if self.items[idx].is_none() {
-                self.items[idx] = Some(Cow::Owned(format!("item{idx}")));
-            }
+            self.items
+                .entry(idx)
+                .or_insert_with(|| Cow::Owned(format!("item{idx}")));
             SpecialPrefixSymbol::Item(idx)
         } else {
             SpecialPrefixSymbol::Regular(self.inner.intern(string))
@@ -79,13 +72,7 @@ impl<B: Backend> Backend for SpecialPrefixBackend<B> {
 
     fn intern_static(&mut self, string: &'static str) -> Self::Symbol {
         if let Some(idx) = item_index(string) {
-            if self.items.len() <= idx {
-                self.items
-                    .extend(iter::repeat(None).take(idx - self.items.len()));
-                self.items.push(Some(Cow::Borrowed(string)));
-            } else if self.items[idx].is_none() {
-                self.items[idx] = Some(Cow::Borrowed(string));
-            }
+            self.items.entry(idx).or_insert(Cow::Borrowed(string));
             SpecialPrefixSymbol::Item(idx)
         } else {
             SpecialPrefixSymbol::Regular(self.inner.intern(string))
@@ -99,14 +86,14 @@ impl<B: Backend> Backend for SpecialPrefixBackend<B> {
 
     fn resolve(&self, symbol: Self::Symbol) -> Option<&str> {
         match symbol {
-            SpecialPrefixSymbol::Item(idx) => self.items.get(idx).unwrap().as_deref(),
+            SpecialPrefixSymbol::Item(idx) => self.items.get(&idx).map(|s| s.as_ref()),
             SpecialPrefixSymbol::Regular(sym) => self.inner.resolve(sym),
         }
     }
 
     unsafe fn resolve_unchecked(&self, symbol: Self::Symbol) -> &str {
         match symbol {
-            SpecialPrefixSymbol::Item(idx) => self.items.get(idx).unwrap().as_deref().unwrap(),
+            SpecialPrefixSymbol::Item(idx) => self.items.get(&idx).unwrap().as_ref(),
             SpecialPrefixSymbol::Regular(sym) => self.inner.resolve_unchecked(sym),
         }
     }
